@@ -61,6 +61,9 @@ class IndexedBasedFinder(dict):
                     k = sympy.Symbol(str(k))
                 return sympy.IndexedBase(str(s))[k]
 
+            # Not iterable. If not set to None __getitem__ would be used for iterating
+            __iter__ = None
+
         self.SubscriptionChecker = SubscriptionChecker
 
         def unimplementded(*args, **kwargs):
